@@ -42,6 +42,10 @@ S1Val(a, b) == VStruct(<<Leaf(tInt, a), Leaf(tStr, b)>>)
 S2 == TStruct(<<Fld("M", <<77>>, tInt), FldO("In", <<73, 110>>, <<"inline">>, S1), Fld("Tl", <<84, 108>>, tInt)>>)
 S2Val(m, a, b) == VStruct(<<Leaf(tInt, m), S1Val(a, b), Leaf(tInt, 2)>>)
 
+\* a struct with an inlined interface field: held by an inlined interface field it gives NESTED inlining through interfaces
+S3 == TStruct(<<Fld("Z", <<90>>, tInt), FldO("I", <<73>>, <<"inline">>, tIface)>>)
+S3Val(x) == VStruct(<<Leaf(tInt, 1), x>>)
+
 \* ---- catalogue: field type with its value classes ----------------------------
 ScalarT == {TScalar(k) : k \in {"string", "int", "int8", "uint64", "float32", "float64", "bool", "uint8", "int64"}}
 Cat ==
@@ -71,7 +75,13 @@ Cat ==
                                VIface(TMap(tIface), VMap(<<KV(<<107>>, VIface(tInt, Leaf(tInt, 1)))>>)),
                                VIface(TMap(tInt), VMap(<<>>)),
                                VIface(TPtr(tInt), VPtr(Leaf(tInt, 1))), VIface(TPtr(tInt), VNil("ptr")),
-                               VIface(S1, S1Val(1, 1)), VIface(TPtr(S1), VPtr(S1Val(1, 0)))}}
+                               VIface(S1, S1Val(1, 1)), VIface(TPtr(S1), VPtr(S1Val(1, 0))),
+                               VIface(S3, S3Val(VIface(TMap(tIface), VMap(<<KV(<<119>>, VIface(tInt, Leaf(tInt, 1)))>>)))),
+                               VIface(S3, S3Val(VNil("iface"))),
+                               VIface(TPtr(S3), VPtr(S3Val(VIface(S1, S1Val(1, 1)))))}}
+  \cup {<<TNamed("KMap"), x>> : x \in {VNil("map"), VMap(<<KV(<<107>>, VStruct(<<Leaf(tInt, 1)>>)), KV(<<108>>, VStruct(<<Leaf(tInt, 0)>>))>>)}}
+  \cup {<<TNamed("KMapI"), x>> : x \in {VNil("map"), VMap(<<KV(<<107>>, Leaf(tInt, 1))>>)}}
+  \cup {<<TSlice(TNamed("KMap")), VSlice(<<VMap(<<KV(<<107>>, VStruct(<<Leaf(tInt, 1)>>))>>)>>)>>}
   \cup {<<TNamed(id), VStruct(<<Leaf(tInt, cl)>>)>> : id \in {"ZeroT", "ZeroP", "FoldT", "FoldObj", "RegT", "RegObj"}, cl \in {0, 1}}
   \cup {<<TPtr(TNamed(id)), x>> : id \in {"ZeroT", "FoldT", "RegT", "RegObj"}, x \in {VNil("ptr"), VPtr(VStruct(<<Leaf(tInt, 1)>>))}}
   \cup {<<TSlice(TNamed(id)), VSlice(<<VStruct(<<Leaf(tInt, 1)>>)>>)>> : id \in {"RegT", "FoldObj"}}
